@@ -770,9 +770,16 @@ impl<'a> Exec<'a> {
                 }
             }
             "sskr_pick_more" => {
+                // another share of the same split, carried by what the register holds NOW (it may have been
+                // annotated since the split): its own share assertion is exchanged for the other one
+                let e = reg(regs, a(0))?;
                 let shares = self.ctx.splits.get(&a(1).to_string()).ok_or("sskr_pick_more: split not cached")?;
                 let (g, m) = (a(2).as_u64().unwrap() as usize, a(3).as_u64().unwrap() as usize);
-                Outcome::Env(shares[g - 1][m - 1].clone())
+                let of_split: Vec<Envelope> = shares.iter().flatten().flat_map(|s| s.assertions_with_predicate(known_values::SSKR_SHARE)).collect();
+                let mine = e.assertions_with_predicate(known_values::SSKR_SHARE).into_iter().find(|x| of_split.iter().any(|y| y.digest() == x.digest()))
+                    .ok_or("sskr_pick_more: the register holds no share of that split")?;
+                let other = shares[g - 1][m - 1].assertions_with_predicate(known_values::SSKR_SHARE).into_iter().next().ok_or("sskr_pick_more: share")?;
+                res(e.remove_assertion(mine).add_assertion_envelope(other))
             }
             "sskr_join" => {
                 let mut envs: Vec<&Envelope> = vec![];
